@@ -40,3 +40,8 @@ HELGRIND = ["valgrind", "--tool=helgrind", "--num-callers=30", "--error-exitcode
 check("C20", "harness/c20_isolation.cxx", flavour="tsan", workers=(4, 16), wall=(60, 900),
       aux=[dict(name="helgrind", flavour="plain", tiers=("thorough",), workers=2, wall=600, prefix=HELGRIND)],
       title="Lexicons are isolated: independent instances can be used from different threads")
+check("C14", "harness/c14_accessors.cxx", workers=(2, 16), wall=(60, 900), asan_extra="detect_stack_use_after_return=0",
+      aux=[dict(name="memcheck", flavour="plain", tiers=("thorough",), workers=1, wall=900, prefix=["valgrind", "--tool=memcheck", "--leak-check=no", "--num-callers=30", "--error-exitcode=0", "--child-silent-after-fork=no", "--trace-children=no"])],
+      title="missing or out-of-range data raises a logic error, never undefined behaviour")
+check("C05", "harness/c05_stability.cxx", workers=(8, 16), wall=(40, 900),
+      title="node identity is stable: nodes never move, never silently change, never alias")
